@@ -618,8 +618,10 @@ static unsigned long long raw_decode(struct jpeg_decompress_struct *ci, struct p
 static unsigned long long raw_encode(struct jpeg_compress_struct *ci, struct plain_err *je, int w, int h, int seed,
                                      int q, int prog, int opt, int arith, int rows, int *rcout)
 {
-  unsigned char *out = NULL, *px = malloc((size_t)w * h * 3);
-  unsigned long outsz = 0;
+  /* caller-supplied buffer that never has to grow: after an error exit the
+     caller of jpeg_mem_dest() cannot know which buffer is current */
+  unsigned long outsz = (unsigned long)MAXDIM * MAXDIM * 6 + 65536;
+  unsigned char *out = malloc(outsz), *px = malloc((size_t)w * h * 3);
   unsigned long long hash = FNV0;
   volatile int stage = 0;
   int y;
